@@ -900,6 +900,35 @@ def rewriters_check(tier, seed):
             break
         if len(samples) < 3 and has_quant(f):
             samples.append(f.serialize())
+    # propagate_toplevel: every ordered conjunction of 2-3 equalities among three Int symbols and two constants (both
+    # orientations), with one more conjunct that uses the symbols - exhaustive over the orders in which the classes are merged
+    x, y, z = bg.ints[0], bg.ints[1], m.Symbol("i2", INT)
+    eqs = []
+    for a, b in ((x, y), (y, z), (x, z), (x, m.Int(0)), (y, m.Int(1)), (z, m.Int(0)), (y, m.Int(0))):
+        eqs += [m.Equals(a, b), m.Equals(b, a)]
+    use = m.LE(m.Plus(x, y), z)
+    fam = [c for k in (2, 3) for c in itertools.permutations(eqs, k)]
+    if tier == "quick":
+        fam = [c for c in fam if len(c) == 2] + rng.sample([c for c in fam if len(c) == 3], 300)
+    for conj in fam if not viol else []:
+        f = m.And(list(conj) + [use])
+        n += 1
+        for pe in (True,):
+            try:
+                r = propagate_toplevel(f, env, preserve_equivalence=pe)
+            except Exception as e:
+                viol.append({"key": "propagate_toplevel-exception", "formula": f.serialize(), "error": repr(e)[:200]})
+                break
+            syms = sorted(refeval.free_symbols(f) | refeval.free_symbols(r), key=lambda s: s.symbol_name())
+            for vals in all_interps(syms, rng, cap=64):
+                if bool(refeval.evaluate(f, refeval.Interp(values=dict(vals)))) != bool(refeval.evaluate(r, refeval.Interp(values=dict(vals)))):
+                    viol.append({"key": "propagate_toplevel", "formula": f.serialize(), "result": r.serialize(),
+                                 "interpretation": {str(k): repr(v) for k, v in vals.items()}})
+                    break
+            if viol:
+                break
+        if viol:
+            break
     # TimesDistributor on arithmetic terms
     g = Gen(env, seed=seed, consts_bias=0.4)
     for t in range(trials if not viol else 0):
@@ -928,7 +957,8 @@ def rewriters_check(tier, seed):
             "rule": "%d generated formulas over 4 Bool / 2 Int / 2 BV2 symbols with Boolean ITE/IFF in both polarities, shared "
                     "sub-formulas and nested, shadowing quantifiers over Bool and BV2; every rewriter's result compared with the "
                     "input on all interpretations (quantifiers evaluated exactly) and checked for its advertised shape; "
-                    "plus %d arithmetic terms through TimesDistributor" % (trials, trials),
+                    "propagate_toplevel on every ordered conjunction of 2 (and 300 / all of 3) equalities among three Int symbols and two "
+                    "constants; plus %d arithmetic terms through TimesDistributor" % (trials, trials),
             "samples": samples, "violations": viol}
 
 
@@ -1001,7 +1031,12 @@ def cnf_check(tier, seed):
              m.Iff(m.Function(gB, [m.Function(gB, [a])]), m.Function(gB, [b])),
              m.Or(m.Function(fB, [a, m.Function(gB, [b])]), m.Function(gB, [a])),
              m.And(m.Function(fB, [a, b]), m.Function(fB, [b, a]), m.Not(m.Function(fB, [a, a]))),
-             m.Not(m.Iff(m.Function(gB, [a]), m.Function(gB, [b])))]
+             m.Not(m.Iff(m.Function(gB, [a]), m.Function(gB, [b]))),
+             # applications nested in the same argument position of two applications of one function
+             m.And(m.Function(fB, [m.Function(gB, [a]), c]), m.Not(m.Function(fB, [m.Function(gB, [b]), c])), m.Iff(a, b)),
+             m.And(m.Not(m.Iff(m.Function(gB, [m.Function(gB, [a])]), m.Function(gB, [m.Function(gB, [b])]))), m.Iff(a, b)),
+             m.And(m.Function(fB, [m.Function(gB, [a]), m.Function(gB, [b])]), m.Not(m.Function(fB, [m.Function(gB, [b]), m.Function(gB, [a])])),
+                   m.Iff(a, b))]
     for f in forms if not viol else []:
         n += 1
         nontriv += 1
@@ -1050,7 +1085,7 @@ def cnf_check(tier, seed):
     return {"name": "cnf", "bounded": True, "evaluations": n, "distinct_nontrivial": nontriv,
             "rule": "%d generated quantifier-free formulas (plus constant / ITE corner cases) through both CNF conversions: every "
                     "interpretation of the original symbols x every value of the introduced symbols evaluated (model extension and "
-                    "restriction, clause shape); Ackermannization of 5 formulas with nested applications of a binary and a unary "
+                    "restriction, clause shape); Ackermannization of 8 formulas with nested applications (also in the same argument position of two applications) of a binary and a unary "
                     "Boolean function against all function tables" % trials,
             "samples": samples, "violations": viol}
 
